@@ -365,7 +365,7 @@ pub fn run_k(case: &KCase) -> (SimEnd, crate::sched::SimStats, KObs) {
                 }
             }
             max_frames = max_frames.max(frames_now);
-            if !eager && !inbuf.is_empty() {
+            if !eager && !inbuf.is_empty() && !closed {
                 // at quiescence nobody is in the middle of a write
                 sv.push(viol(
                     "C07",
